@@ -174,6 +174,19 @@ CLAIMED['C20'] = dict(
          'enumeration, not by a theorem.',
     technique='Coq proof over a graph regenerated from the source by a Python-ast translator (closure check + path lemma) + dynamic digests')
 
+CLAIMED['C17'] = dict(
+    text='Segment-level model of to_csv (Usid/Csv.v): Python string concatenation on comma-separated cell lists (cat), the header block (one line '
+         'per spectroscopic dimension: pos_dims-1 empty cells, the descriptor, that dimension\'s value per column), the label/dash row and the data '
+         'rows, plus the write decision (size limit, force, existing file). Theorems: csv_cells_aligned - in the produced table the cell at header '
+         'row i / data column c is spectroscopic value (i,c), the cell at data row r / left column d is position value (r,d), the cell at data row '
+         'r / column c is element (r,c), for every numbers of dimensions, rows and columns; csv_no_overwrite / csv_oversize_skipped / csv_forced for '
+         'the decision. Correspondence: the real file is parsed with the csv module and compared cell by cell with the model table; decision codes '
+         'compared for second call, forced overwrite, > 15 MiB dataset. Oracle additionally checks directory listings (no stray temp file).',
+    design='5/C17',
+    note='Trusted: Coq kernel, harness, numpy.savetxt number formatting (cells are abstract ids; partial: the printed text of a number is outside '
+         'the model). The temp.csv leak on a failing export was repaired (75447c2).',
+    technique='Coq proof (cell-alignment theorem over a list-of-segments model) + vm_compute correspondence against the parsed CSV file')
+
 NOT_YET = {}
 
 TITLES = {}
